@@ -81,7 +81,9 @@ TYPES = {
         ('RHexdump', ['bytes', 'N']),
         ('RHexundump', ['bytes', 'N']),
         ('RCops', [L('cop')]),
+        ('RLazy', ['con', KW, 'bytes', 'N', L('nat')]),
     ],
+    'lout': [('LVal', ['val', 'Z']), ('LErr', ['err'])],
     'step': [('SKey', [NAME]), ('SIdx', ['nat'])],
     'cop': [
         ('CNew', ['val']), ('CCopy', ['nat']), ('CDeepcopy', ['nat']), ('CPickle', ['nat']),
@@ -96,6 +98,7 @@ TYPES = {
         ('ROkVal', ['val']),
         ('ROkBytes', ['bytes']),
         ('ROuts', [L('cout')]),
+        ('ROkLazy', ['Z', L('lout')]),
         ('RErr', ['err', O(L(NAME))]),
     ],
 }
